@@ -18,7 +18,7 @@ from .. import gen as G
 
 PID = 'C09'
 RULE = ('cases = (closure class or alias, hard-core flag, grid length 1-2048, gamma of scale 1e-4..50 with both signs (10 % integer-dtype arrays), potential kind '
-        'finite random | hard-core step + tail | zero | weak, sigma below/inside/on/above the grid); each case runs the direct call, '
+        'finite random | hard-core step (1e6 or +inf) + tail | zero | weak, grids starting at dr or at r = 0, sigma below/inside/on/above the grid); each case runs the direct call, '
         'permuted/subsampled/one-element-at-a-time calls, a re-use of the same object with another potential and sigma, the alias, a read-only replica and the weak-coupling limit; non-trivial = gamma '
         'not identically zero and potential not identically zero; distinct = distinct case digests')
 ASSUMPTIONS = ['published relations: PY (e^-u - 1)(1+gamma); HNC e^(gamma-u)-1-gamma; MSA -u; MS exp(sqrt(1+2(gamma-u))-1)-1-gamma',
@@ -128,7 +128,7 @@ def cases(ctx):
     for it in range(n):
         yield {'clo': NAMES[it % 4], 'hc': bool(rng.random() < 0.6), 'alias': bool(rng.random() < 0.4),
                'L': int(rng.choice([1, 2, 3, 17, 64, 100, 256, int(rng.integers(1, 2049))])) if ctx.thorough() else int(rng.choice([1, 2, 3, 17, 64, 100, 256, int(rng.integers(1, 400))])),
-               'gscale': float(10 ** rng.uniform(-4, np.log10(50))), 'pot': str(rng.choice(['finite', 'step', 'zero', 'weak', 'steptail'])),
+               'gscale': float(10 ** rng.uniform(-4, np.log10(50))), 'pot': str(rng.choice(['finite', 'step', 'zero', 'weak', 'steptail', 'step_inf'])), 'r0': bool(rng.random() < 0.15),
                'sig': str(rng.choice(['inside', 'ongrid', 'below', 'above', 'inside'])), 'seed': int(rng.integers(0, 2 ** 31)),
                'gdtype': 'int' if rng.random() < 0.1 else 'float'}
 
@@ -138,6 +138,8 @@ def run_case(ctx, case):
     L = int(case['L'])
     dr = float(rng.choice([0.1, 0.05, 0.025, 0.2]))
     r = dr * np.arange(1, L + 1)
+    if case.get('r0'):
+        r = dr * np.arange(0, L)              # a grid that starts AT the origin (tabulated data often does)
     sk = case['sig']
     if sk == 'inside':
         sigma = float(rng.uniform(r[0], r[-1])) if L > 1 else float(r[0] * rng.uniform(0.5, 1.5))
@@ -162,6 +164,8 @@ def run_case(ctx, case):
         u = rng.normal(size=L) * 1e-3
     elif pk == 'step':
         u = np.where(r > sigma, 0.0, 1e6)
+    elif pk == 'step_inf':
+        u = np.where(r > sigma, -0.3 * np.exp(-(r - sigma)), np.inf)          # a truly infinite core, e.g. HardSphere(high_value=np.inf)
     else:
         u = np.where(r > sigma, -0.5 * np.exp(-(r - sigma)), 1e6 / float(rng.choice([1.0, 0.5, 5.0])))
     cname = G.CLOSURES[case['clo']][1 if case['alias'] else 0]
@@ -191,7 +195,7 @@ def run_case(ctx, case):
             ctx.violation('closure:wrong-when-output-fed-back', '%s(hc=%s): calculate(r, previous_output) differs from the evaluation on a copy of that array' % (cname, hc))
         # --- the same object re-used with another potential and sigma (a closure carries no memory of earlier calls)
         ctx.hook('object_reuse_probe')
-        u_new = np.array(u[::-1]) * float(rng.uniform(0.3, 2.0)) + (0.25 if pk != 'step' else 0.0)
+        u_new = np.array(u[::-1]) * float(rng.uniform(0.3, 2.0)) + (0.25 if pk not in ('step', 'step_inf') else 0.0)
         c.potential = u_new
         c.sigma = sigma * float(rng.choice([1.0, 0.7, 1.3]))
         o_reuse = np.array(c.calculate(np.array(r), np.array(gam)), dtype=float)          # contract judges it against the CURRENT potential
@@ -245,7 +249,7 @@ def run_case(ctx, case):
         if L >= 1:
             ctx.hook('weak_limit_probe')
             a, b = rng.normal(size=L), rng.normal(size=L)
-            far = np.full(L, sigma) + r          # all points outside the core
+            far = np.full(L, sigma) + r + dr     # all points strictly outside the core (r may start at 0)
             for eps in (1e-2, 1e-3, 1e-4):
                 c6 = fresh()
                 c6.potential = eps * b
